@@ -24,7 +24,8 @@ class C10(PureCheck):
     assumptions = ("width classes of the alphabet as in Width.tla; ./check setup verifies cwcwidth agrees",)
 
     def design_runs(self, tier):
-        return []
+        cfg = ("SPECIFICATION Spec\nCONSTANT MaxRuns = %d\nCONSTANT MaxLen = 2\nINVARIANT WsliceOk\nCHECK_DEADLOCK FALSE\n" % (2 if tier == "quick" else 3))
+        return [dict(module="MC_Width", cfg=cfg, workers=8, timeout=3000)]
 
     def inputs(self, tier, rng):
         L2 = list(layouts(2, 2, alphabet=ALPHA, atts=ATTS2))
